@@ -31,6 +31,7 @@ type PtrField struct {
 type ArrCell struct {
 	Elems []Val
 	ElemT types.Type
+	Fresh bool // no element was stored yet (all zero)
 }
 type PtrArrElem struct {
 	Cell *ArrCell
@@ -129,6 +130,7 @@ type FnCtx struct {
 	inlineDepth int
 	usedGlobals []*ssa.Global
 	allocAt     map[string]string
+	opaqueLemma bool
 	nGlobalInv  int
 }
 
@@ -967,4 +969,9 @@ type strictLoc struct {
 	ref   Term
 	props []string
 	src   string
+}
+
+// opaque: strings are an uninterpreted sort in this verification context.
+func (fc *FnCtx) opaque() bool {
+	return fc.opaqueLemma || (fc.c != nil && fc.c.Opts["strings"] == "opaque")
 }
